@@ -9,6 +9,7 @@ import time
 import traceback
 
 ROOT = os.path.dirname(os.path.dirname(os.path.abspath(__file__)))
+OUT = os.environ.get('VERIF_OUT') or ROOT     # mutation trials write elsewhere
 PROPS = [f'C{i:02d}' for i in range(1, 21)]
 
 
@@ -35,8 +36,8 @@ def write_evidence(prop, tier, seed, level, coverage, assumptions, wall, nviol):
     ev = {'property_id': prop, 'tier': tier, 'seed': seed, 'level': level,
           'coverage': coverage, 'assumptions': assumptions,
           'wall_s': round(wall, 3), 'violations': nviol}
-    os.makedirs(os.path.join(ROOT, 'evidence'), exist_ok=True)
-    path = os.path.join(ROOT, 'evidence', f'{prop}.json')
+    os.makedirs(os.path.join(OUT, 'evidence'), exist_ok=True)
+    path = os.path.join(OUT, 'evidence', f'{prop}.json')
     with open(path, 'w') as f:
         json.dump(ev, f, indent=1, default=str)
     # validate against the schema with the tooling interpreter (has jsonschema)
@@ -55,7 +56,7 @@ def write_evidence(prop, tier, seed, level, coverage, assumptions, wall, nviol):
 
 
 def write_replay(prop, idx, data):
-    d = os.path.join(ROOT, 'replays')
+    d = os.path.join(OUT, 'replays')
     os.makedirs(d, exist_ok=True)
     path = os.path.join(d, f'{prop}_{idx}.json')
     with open(path, 'w') as f:
